@@ -84,6 +84,7 @@ structure Pair where
 
 structure Pending where
   tid : Nat
+  src : Nat            -- address of the local candidate the request was sent from (`bindingRequest.source`)
   dest : Nat
   net : Nat
   useCand : Bool
@@ -284,7 +285,7 @@ def Agent.invalidatePending (a : Agent) (now : Nat) : Agent :=
 def Agent.sendRequest (a : Agent) (now : Nat) (l r : Cand) (useCand : Bool) (nom : Option Nat) : Agent × List Out :=
   let tid := 2 * a.nextTid + a.tag
   let a := a.invalidatePending now
-  let pd : Pending := { tid := tid, dest := r.addr, net := r.net, useCand := useCand, nom := nom, ts := now }
+  let pd : Pending := { tid := tid, src := l.addr, dest := r.addr, net := r.net, useCand := useCand, nom := nom, ts := now }
   let a := { a with nextTid := a.nextTid + 1, pending := a.pending ++ [pd] }
   let a := match a.findPair l r with
     | some p => a.modPair p.id fun p => { p with reqSent := p.reqSent + 1 }
@@ -552,7 +553,7 @@ def Agent.handleSuccess (a : Agent) (now : Nat) (m : Msg) (l r : Cand) (src : Na
   match pend with
   | none => (a, [])
   | some pd =>
-    if !(pd.net == l.net && pd.dest == src) then (a, [])
+    if !(pd.net == l.net && pd.dest == src && pd.src == l.addr) then (a, [])
     else
       match a.findPair l r with
       | none => (a, [])
